@@ -81,7 +81,7 @@ CHECKS = {
                 'phase, conjugation check, H, swap, panic) which must equal the reference gate semantics; only ZPhase/XPhase read the gate phase; unsupported '
                 'kinds fail loudly; gates are visited in reverse over all gates; the decision structure of scalar_eq (dims, first non-zero of EACH tensor, zero '
                 'cases, cross-multiplication with the other tensor\'s entry), compare and scalar_compare; the From<Phase> exactness guard and unit table.',
-        'note': TB + 'Reference gate semantics in refs/gates.py. Not decided: the graph evaluator (contraction order, index positions), entry values, float type.',
+        'note': TB + 'Reference gate semantics in refs/gates.py; the external crate ndarray is a host model (shape + elements in logical order; stacking, broadcasting, axis sums and swaps, two-way mutable slices, Zip as documented), checked against documented ndarray behaviour on every run. Not decided: diagrams and circuits beyond the evaluated small scope (about eight vertices / three qubits, phases outside the multiples of pi/4), H-boxes (rejected by the evaluator), float rounding beyond 1e-9 on the small scope.',
         'technique': 'dispatch-table extraction with semantic descriptors, decision-structure rule, table extraction by partial evaluation',
     },
     'C10': {
@@ -225,6 +225,14 @@ ROUND2 = {
     'C19': 'Round 2: every generator is explored over ALL outcomes of its random draws for small parameters (about 6000 outcomes per run): distinct in-range qubit arguments, only kinds with non-zero probability and all of them, depth, Pauli-gadget weights / phases (non-Clifford for even denominators >= 4) / basis-change layer undone by its adjoint, stabiliser-state structure with scalar sqrt2^(#H-edges - qubits), and the hidden-shift promise itself on 6 qubits (|0..0> -> |shift> with probability one, exact integer amplitudes).',
 }
 
+# ---------------------------------------------------------------- round 3 addenda (DESIGN 10.9)
+ROUND3 = {
+    'C08': 'Round 3: the statement itself on a small scope: tensor.rs is interpreted from its HIR on a host model of ndarray — the graph evaluator (contraction order, seen-degree bookkeeping, index positions, Hadamard normalisation, stored scalar) on both back ends for about 4 000 well-formed small diagrams (0..3 spiders of both colours, every edge pattern, up to three boundaries each way, several boundaries on one spider, closed / disconnected diagrams, isolated spiders, boundaries wired straight to boundaries incl. crossings, cups and caps, circuit-like diagrams with a gadget) under several vertex numberings, in the exact number type and in Complex<f64> (the from_phase / sqrt2_pow impls of tensor.rs interpreted); the circuit evaluator on every supported gate kind on every tuple of distinct qubits of 1..3 wires plus pairs and longer sequences; every entry is compared with a brute-force contraction / the product of the reference gate matrices, axes ordered inputs then outputs; unsupported kinds panic; the QubitOps primitives (ident, delta, cphase, hadamard, delta_at, cphase_at, hadamard_at, plug_n_qubits on its documented domain) against their definitions; compare / scalar_compare end to end on (diagram, circuit) pairs with known relation. The per-gate table and the decision-structure rules are the size-independent fallback.',
+}
+
+for _pid, _row in CHECKS.items():
+    if _pid in ROUND3:
+        _row['text'] = _row['text'].rstrip() + ' ' + ROUND3[_pid]
 for _pid, _row in CHECKS.items():
     if _pid in ROUND2:
         _row['text'] = _row['text'].rstrip() + ' ' + ROUND2[_pid]
